@@ -92,7 +92,8 @@ def render_pgn(nodes, path, rng, gid, style="A"):
         if r < 0.10:
             toks.append("$%d" % rng.randint(1, 140))
         elif r < 0.20:
-            toks.append("{%s}" % rng.choice(["good move", "book", "a plan: Nf3 and e4", "[%clk 0:05:00]", "comment with (parens)"]))
+            toks.append("{%s}" % rng.choice(["good move", "book", "a plan: Nf3 and e4", "[%clk 0:05:00]", "comment with (parens)",
+                                             "book; eval +0.35", "white is better 1-0 soon", "see 12. Qd2 Nf6", "two\nlines"]))
         elif r < 0.26 and k + 1 < len(path):
             alt = move_san(nodes, path, k)          # a variation that repeats the move (content is irrelevant: it must be dropped)
             toks.append("(%s %s (%s $2) )" % ("%d%s" % (k // 2 + 1, "." if k % 2 == 0 else "..."), alt, alt))
